@@ -226,6 +226,9 @@ func main() {
 	start := time.Now()
 	var mine []Case
 	for i, c := range cases {
+		if *prop == "C03" && !(c.Mode == "translate" && (c.Kind == "CreatePromise" || c.Kind == "CreatePromiseAndTask" || c.Kind == "CompletePromise" || c.Kind == "CreateSchedule")) {
+			continue // C03 uses the front ends only for what they do to idempotency keys and the strict flag
+		}
 		if i%*nshards == *shard {
 			mine = append(mine, c)
 		}
@@ -263,6 +266,9 @@ func main() {
 		}
 		rep.Hit("endpoint." + c.Endpoint)
 		for i, p := range r.Problems {
+			if *prop == "C03" && !strings.HasPrefix(r.Sig[i], "translate:idempotency-fields:") {
+				continue
+			}
 			record(c, r.Sig[i], fmt.Sprintf("%s status %d (%s, %s/%s): %s", c.Endpoint, c.Status, c.Name, c.Form, c.Shape, p))
 		}
 		if len(rep.Samples) < 3 && c.Mode == "status" && c.Producible {
